@@ -746,8 +746,7 @@ func (p *parser) parseField(node *node32) (field *Field, err error) {
 				f.ReservedComments = reservedComments
 			}
 		case ruleFieldId:
-			i, _ := strconv.ParseInt(p.pegText(node), 10, 32)
-			f.ID = int32(i)
+			f.ID = parseFieldID(p.pegText(node))
 		case ruleFieldReq:
 			require := p.pegText(node)
 			f.Requiredness = FieldType_Default
@@ -777,6 +776,17 @@ func (p *parser) parseField(node *node32) (field *Field, err error) {
 		}
 	}
 	return &f, nil
+}
+
+// parseFieldID reads a field id as written: decimal, or hexadecimal / octal
+// with the 0x / 0o prefix that the grammar accepts.
+func parseFieldID(text string) int32 {
+	base := 10
+	if strings.HasPrefix(text, "0x") || strings.HasPrefix(text, "0o") {
+		base = 0
+	}
+	i, _ := strconv.ParseInt(text, base, 32)
+	return int32(i)
 }
 
 func (p *parser) parseAnnotations(node *node32) ([]*Annotation, error) {
